@@ -316,9 +316,6 @@ example : addMap paramsV2 (Prim.hashInto paramsV2) (newHash paramsV2)
       [([97], .i32 1), ([98], .i32 2), ([], .i32 0)]
     = addMap paramsV2 (Prim.hashInto paramsV2) (newHash paramsV2)
       [([], .i32 0), ([98], .i32 2), ([97], .i32 1)] := by decide
-/-- the value the real `AddMap` produces for `{"a":1,"b":2,"":0}` from `NewHash()` (see harness) -/
-example : addMap paramsV2 (Prim.hashInto paramsV2) (newHash paramsV2)
-      [([97], .i32 1), ([98], .i32 2), ([], .i32 0)] = 145086289 := by decide
 example : KeysNodup [([97], Prim.i32 1), ([98], .i32 2)] := by
   simp [KeysNodup]
 /-- the guards are satisfiable and not always true -/
